@@ -12,7 +12,10 @@ cd "$WT" || exit 2
 [ -f "$S/patch.diff" ] || { echo "no $S/patch.diff"; exit 2; }
 git checkout -q -- src
 cp -f "$S/demo.rs" tests/seeded_demo.rs
-cargo test --offline --test seeded_demo >/tmp/confirm_$NAME.clean 2>&1; clean_rc=$?
+# a demo may name the feature set it has to be run under (changes that only exist in a non-default build)
+DEMO_FLAGS=$(grep -m1 -o -- '--no-default-features --features [a-z,]*' "$S/demo.rs" || true)
+[ -n "$DEMO_FLAGS" ] && echo "demo runs with: $DEMO_FLAGS"
+cargo test --offline $DEMO_FLAGS --test seeded_demo >/tmp/confirm_$NAME.clean 2>&1; clean_rc=$?
 echo "== demo on clean source: rc=$clean_rc $(grep -E '^test result' /tmp/confirm_$NAME.clean | head -1)"
 git apply "$S/patch.diff" || { echo "patch does not apply"; rm -f tests/seeded_demo.rs; exit 2; }
 echo "== builds with the change"
@@ -37,7 +40,7 @@ print("baseline tests missing from the passing set:", missing)
 open('/tmp/confirm_%s.missing'%sys.argv[1],'w').write(str(len(missing)))
 PY
 missing=$(cat /tmp/confirm_$NAME.missing)
-cargo test --offline --test seeded_demo >/tmp/confirm_$NAME.mut 2>&1; mut_rc=$?
+cargo test --offline $DEMO_FLAGS --test seeded_demo >/tmp/confirm_$NAME.mut 2>&1; mut_rc=$?
 echo "== demo with the change: rc=$mut_rc $(grep -E '^test result|^error' /tmp/confirm_$NAME.mut | head -2)"
 git checkout -q -- src
 rm -f tests/seeded_demo.rs
